@@ -306,7 +306,7 @@ pub fn near_misses(reg: &PortableRegistry, rng: &mut Rng) -> Vec<String> {
         .collect()
 }
 
-pub fn gen_universe(w: &World, rng: &mut Rng) -> Universe {
+pub fn gen_universe(w: &World, rng: &mut Rng, prop: Prop) -> Universe {
     // probe registries: families (single id per chosen path)
     let fam: Vec<&corpus::Entry> = w
         .families
@@ -319,7 +319,23 @@ pub fn gen_universe(w: &World, rng: &mut Rng) -> Universe {
             name: f.name.clone(),
             reg: f.reg.clone(),
         };
-        if rng.chance(1, 4) {
+        if prop == Prop::C11 && rng.chance(1, 10) {
+            // the read side needs no probe generation, so large real registries can serve:
+            // a slice of the polkadot metadata, now and then all 918 types of it
+            if rng.chance(1, 6) {
+                chosen = corpus::Entry {
+                    name: "polkadot:full".into(),
+                    reg: w.polkadot.clone(),
+                };
+            } else {
+                let k = 1 + rng.usize_below(4);
+                let roots = rng.subset(&w.polkadot_named, k);
+                chosen = corpus::Entry {
+                    name: format!("polkadot:slice{roots:?}"),
+                    reg: corpus::slice(&w.polkadot, &roots),
+                };
+            }
+        } else if rng.chance(1, 4) {
             // a generated registry, de-duplicated; used as probe only if it generates cleanly
             let s = rng.next_u64();
             let r = crate::gen::random_registry(&mut Rng::new(s));
@@ -349,6 +365,12 @@ pub fn gen_universe(w: &World, rng: &mut Rng) -> Universe {
             refmodel::is_generated_kind(&e.reg.types[id as usize].ty)
         })
         .collect();
+    // one-segment prelude paths that occur exactly once are paths of registry types as well
+    let single_prelude: Vec<String> = by_path
+        .iter()
+        .filter(|(p, ids)| !p.contains("::") && ids.len() == 1)
+        .map(|(p, _)| p.clone())
+        .collect();
     let n_paths = 4 + rng.usize_below(7);
     // usually 1-3 unknown paths; one universe in six is mostly unknown paths
     let n_unknown = if rng.chance(1, 6) {
@@ -357,6 +379,9 @@ pub fn gen_universe(w: &World, rng: &mut Rng) -> Universe {
         1 + rng.usize_below(3.min(n_paths - 1))
     };
     let mut paths = rng.subset(&single, (n_paths - n_unknown).min(single.len()));
+    if !single_prelude.is_empty() && rng.chance(1, 3) {
+        paths.push(rng.pick(&single_prelude).clone());
+    }
     // unknown paths: unrelated ones and near misses of registry paths (suffix, extension,
     // prefix, sibling module, different case, a prelude type spelled with its std path)
     let mut unknown_pool: Vec<String> = UNKNOWN.iter().map(|s| s.to_string()).collect();
@@ -819,7 +844,8 @@ fn judge_c11(b: &Builders, u: &Universe, raw: &mut Vec<(String, String)>, stats:
         d_by_path.entry(k.clone()).or_default().extend(set_of(d.derives()));
         a_by_path.entry(k).or_default().extend(set_of(d.attributes()));
     }
-    for (which, reg) in [("probe", &*u.reg), ("foreign", &*u.foreign)] {
+    let empty = PortableRegistry { types: vec![] };
+    for (which, reg) in [("probe", &*u.reg), ("foreign", &*u.foreign), ("empty", &empty)] {
         let mut want_d = BTreeMap::new();
         let mut want_a = BTreeMap::new();
         let mut want_s = BTreeSet::new();
@@ -1258,7 +1284,7 @@ pub fn plan_run(w: &World, prop: Prop, root: u64, run: u64) -> Plan {
     };
     let rs = mix(root, tag(t), run);
     let mut rng = Rng::new(rs).sub("universe");
-    let u = gen_universe(w, &mut rng);
+    let u = gen_universe(w, &mut rng, prop);
     let hist = gen_history(&u, mix(rs, tag("history"), 0));
     Plan {
         u,
